@@ -374,7 +374,7 @@ def run(res, ctx):
                       {"theorem_or_projection": "arith validation (dec instance of the model)", "examples": av["examples"]},
                       found_input=False)
     run_batch(res, ctx, corpus(), "corpus")
-    n = 500 if tier == "quick" else 12000
+    n = 1500 if tier == "quick" else 12000
     done = 0
     while done < n:
         k = min(500, n - done)
